@@ -71,6 +71,27 @@ pub struct ReplayFile<S> {
     /// its own schedule seed instead of a decision list
     #[serde(default)]
     pub abort: bool,
+    /// the violation only shows after the preceding seeded runs of the same batch were executed
+    /// in the same process (the code under test keeps process-global state): replay re-executes
+    /// the seeded runs `0..=upto` one after the other on one thread
+    #[serde(default)]
+    pub sequence: Option<SeqInfo>,
+}
+
+#[derive(Serialize, Deserialize, Clone, Debug)]
+pub struct SeqInfo {
+    pub profile: String,
+    pub thorough: bool,
+    pub upto: u64,
+    /// None: scan and report the first violation; Some: it must occur at exactly this run
+    pub expect_index: Option<u64>,
+    pub expect_signature: Option<String>,
+}
+
+/// The i-th seeded scenario of a batch (the same derivation `run_batch` uses).
+pub fn seeded_scenario<H: Harness>(h: &H, seed: u64, profile: &str, thorough: bool, i: u64) -> H::Sc {
+    let mut rng = Rng::new(mix(&[seed, profile_hash(profile), i]));
+    h.generate(&mut rng, profile, thorough)
 }
 
 #[derive(Serialize, Deserialize, Clone, Debug)]
@@ -215,6 +236,8 @@ pub struct BatchResult<S> {
     pub known_hits: Vec<(String, String)>,
     pub wall_s: f64,
     pub harness_error: Option<String>,
+    /// corpus + grid cases that precede the seeded runs in the run index
+    pub n_pre: u64,
 }
 
 fn profile_hash(p: &str) -> u64 {
@@ -380,6 +403,7 @@ pub fn run_batch<H: Harness>(h: &H, cfg: &BatchCfg) -> BatchResult<H::Sc> {
         known_hits: known_hits.into_inner().unwrap(),
         wall_s: start.elapsed().as_secs_f64(),
         harness_error: herr.into_inner().unwrap(),
+        n_pre,
     }
 }
 
@@ -481,6 +505,7 @@ pub fn write_replay<H: Harness>(
         decisions: o.decisions.clone(),
         log_hash: o.log_hash,
         abort: false,
+        sequence: None,
     };
     std::fs::create_dir_all(dir).map_err(|e| e.to_string())?;
     let path = dir.join(format!("{}-{}-{}.json", v.property, v.clause, seed));
